@@ -34,7 +34,7 @@ THEOREMS = [
     "Mesa.Viz.C20_split_lossless_disjoint",
     "Mesa.Viz.C20_creator_checks_all_params",
 ]
-COUNTS = {"quick": 1600, "thorough": 24000}
+COUNTS = {"quick": 1600, "thorough": 60000}
 TRUSTED = [
     "matplotlib: Axes.scatter stores the x/y/s/c/marker/zorder/alpha/edgecolors/linewidths it is given in one PathCollection (read back through get_offsets/get_sizes/get_facecolors/get_edgecolors/get_linewidths/get_zorder/get_paths); colour-name conversion, marker rendering, imshow(origin='lower') putting array row r at height r",
     "Altair: Chart.to_dict() reports the rows given to alt.Data(values=...) unchanged",
